@@ -868,6 +868,16 @@ FN_OVERLAYS['vector::float_vector_multiply_scalar'] = dict(loops={0: '''
             let ghost fv0 = $FV.values@;
 '''})
 
+# FLOATVECTOR.SUM / MEAN: the left-to-right f32 sum (R14), and that sum divided by the length
+row('FLOATVECTOR.SUM', ['C09'], fired='(S0.floatvec.len() >= 1)', pushes=[('float', 'fsum(%s, %s.len())' % (_fv, _fv))])
+row('FLOATVECTOR.MEAN', ['C09'], fired='(S0.floatvec.len() >= 1)', pushes=[('float', 'f32_div(fsum(%s, %s.len()), usize_to_f32(%s.len() as usize))' % (_fv, _fv, _fv))])
+for _p in ['vector::float_vector_sum', 'vector::float_vector_mean']:
+    FN_OVERLAYS[_p] = dict(loops={0: '''
+            //bind V = if let Some\\((\\w+)\\) = push_state\\.float_vector_stack\\.get\\(0\\)
+            invariant ghost_iter.seq().len() == $V.values@.len(), ghost_iter.index@ <= $V.values@.len(),
+                forall|k: int| 0 <= k < $V.values@.len() ==> *#[trigger] ghost_iter.seq()[k] == $V.values@[k],
+                r14_s == fsum($V.values@, ghost_iter.index@ as nat),
+'''})
 # INTVECTOR.SORT*ASC / DESC: a sorted permutation of the top vector, in place (std slice::sort: assumed contract T-std + the i32 axiom)
 for nm, cmp in [('INTVECTOR.SORT*ASC', '<='), ('INTVECTOR.SORT*DESC', '>=')]:
     row(nm, ['C09'], touches=['intvec'], clauses=[
